@@ -46,12 +46,19 @@ inductive Ref where
 structure ClassDef where
   id : ClassId
   alias : Option Nat
-  abstract : Bool
+  /-- `inspect.isabstract(cls)`: abstract methods / properties not implemented (own, inherited, or from a mixin) -/
+  unimpl : Bool
+  /-- some value of the class' own `__dict__` is an abstract class (an abstract inner class / component) -/
+  inner : Bool
   /-- the Service ancestors (excluding `Service` and the class itself) in MRO order -/
   parents : List ClassId
   /-- `path=` keyword: explicit search paths -/
   paths : List Mod
   deriving DecidableEq, Repr
+
+/-- the module's own `isabstract(cls)`: "extended version of inspect.isabstract that also considers any inner classes";
+both `Service.__init_subclass__` and `Bank.add` use this predicate -/
+def ClassDef.abstract (c : ClassDef) : Bool := c.unimpl || c.inner
 
 structure PathE where
   mod : Mod
